@@ -641,7 +641,19 @@ fn gen_history(rng: &mut Rng, len: usize, wild: bool, learning: bool) -> Vec<Str
             67..=69 => ops.push(format!("ctrl {}", if wild { rand_int(rng) } else { 48 + rng.below(10) as i64 })),
             70..=77 => ops.push(format!("cand {}", rng.pick(&["open", "close", "first", "last", "next", "prev", "open", "open"]))),
             78..=81 => ops.push(format!("choose {}", if rng.chance(3, 4) { rng.below(8) as i64 } else { rand_int(rng) })),
-            82..=84 => ops.push(format!("api {}", rng.pick(&["commit", "cleanpre", "cleanbopo", "ack", "reset"]))),
+            82 => {
+                // a one-syllable candidate list under a layout with alternate syllables (Hsu, ET26, DaChen 26),
+                // a small page size, then paging
+                ops.push(format!("leg KBType {}", rng.pick(&[1i64, 5, 8])));
+                ops.push(format!("leg candPerPage {}", 1 + rng.below(9)));
+                ops.push(format!("key {}", b'a' + rng.below(26) as u8));
+                ops.push("key 32".into());
+                ops.push("h Down".into());
+                for _ in 0..rng.below(4) {
+                    ops.push(format!("h {}", rng.pick(&["Right", "PageDown", "Space", "Left", "Down"])));
+                }
+            }
+            83..=84 => ops.push(format!("api {}", rng.pick(&["commit", "cleanpre", "cleanbopo", "ack", "reset"]))),
             85..=94 => ops.push(config_op(rng, wild)),
             _ => {
                 if learning {
